@@ -1608,7 +1608,7 @@ pub fn array_reduce_right(
             .unwrap_or(JsValue::Undefined);
         let Guarded {
             value: result,
-            guard: _result_guard,
+            guard: _call_guard,
         } = interp.call_function(
             callback.clone(),
             JsValue::Undefined,
